@@ -411,6 +411,35 @@ def edit_histories(acc, source, spec, payload):
         g.name = "Grafted9"
         twin_parent.add_relation(Relation(twin_parent, [g], 0, 1))
         finish("grafted-from-same-named-parent", m)
+    # (7) a feature replaced, in its relation, by a NEW Feature object of the same name (other flags, no subtree)
+    m = fresh()
+    feats, rels, owner, parent = walk(m)
+    cand = [f for f in feats if parent[id(f)] is not None]
+    if cand:
+        x = r.choice(cand)
+        gone = [n for n in subtree_names(x) if n != x.name]
+        new = Feature(x.name, [], is_abstract=not x.is_abstract)
+        for rel in parent[id(x)].relations:
+            for k, c in enumerate(rel.children):
+                if c is x:
+                    rel.children[k] = new
+        new.parent = parent[id(x)]
+        finish("replaced-by-same-named-object", m, gone)
+    # (8) a Relation object over features of the model is constructed (a what-if, a membership test) and thrown
+    #     away without ever being attached: constructing it is not an edit
+    m = fresh()
+    feats, rels, owner, parent = walk(m)
+    groups = [rel for rel in rels if rel.children]
+    if groups:
+        rel = r.choice(groups)
+        before = S.snapshot_or_none(m)
+        probe = Relation(Feature("Detached9", []), list(rel.children), rel.card_min, rel.card_max)
+        _ = probe in m.get_relations()
+        del probe
+        if before is not None and S.snapshot_or_none(m) != before:
+            acc.fail("history:detached-relation-constructed", "model-unchanged", "Relation.__init__", [], "mutated",
+                     S.first_diff(before, S.snapshot_or_none(m)), dict(payload, history="detached relation constructed"))
+        finish("detached-relation-constructed", m)
     # (5) a new root assigned on the same FeatureModel object; the old tree's names must be gone
     m = fresh()
     old_names = [f.name for f in walk(m)[0]]
